@@ -525,12 +525,12 @@ Qed.
 (** * Programs that stay behind the header *)
 
 (** [wsp p l Q]: run on the logical stream from [l], the program issues every page-layer
-    operation at a logical position of at least 48 (behind the file header), and if it returns
-    [a] in stream [l'] then [Q a l'] *)
+    operation at a logical position of at least 48 (behind the file header), an error leaves it
+    at such a position, and if it returns [a] in stream [l'] then [Q a l'] *)
 Fixpoint wsp {A} (p : wprog A) (l : lstream) (Q : A -> lstream -> Prop) : Prop :=
   match p with
   | WRet a => Q a l
-  | WErr _ => True
+  | WErr _ => 48 <= ls_pos l
   | WPanic => True
   | WOp o k => 48 <= ls_pos l /\ wsp (k (snd (ls_step o l))) (fst (ls_step o l)) Q
   end.
@@ -553,6 +553,14 @@ Lemma wsp_relabel A e (p : wprog A) : forall l Q, wsp p l Q -> wsp (wrelabel e p
 Proof.
   induction p as [a|k| |o k IH]; intros l Q H; cbn [wrelabel wsp] in *; try exact H.
   destruct H as [H1 H2]. split; [exact H1|]. apply IH. exact H2.
+Qed.
+
+Lemma wsp_err_pos A (p : wprog A) : forall l (Q : A -> lstream -> Prop) k,
+  wsp p l Q -> snd (wrun_spec p l) = Err k -> 48 <= ls_pos (fst (wrun_spec p l)).
+Proof.
+  induction p as [a|e| |o k0 IH]; intros l Q k H E; cbn [wrun_spec fst snd wsp] in *; try discriminate.
+  - exact H.
+  - destruct H as [_ H]. destruct (ls_step o l) as [l1 x]. cbn [fst snd] in *. eapply IH; eassumption.
 Qed.
 
 Theorem log_ok_wrun A (p : wprog A) : forall s l Q,
